@@ -157,6 +157,31 @@ def r05_3(ctx):
     return r
 
 
+def _table_mutators(ctx):
+    """SrtpSession functions that, directly or through other session functions, evict from or insert into the
+    per-SSRC receive table"""
+    GROWM = ("::insert", "::or_insert", "::or_insert_with", "::retain", "::remove", "::clear")
+    direct = set()
+    calls = {}
+    for body in ctx.facts.bodies(prefix="srtp::SrtpSession::"):
+        base = body.name.split("::{closure")[0]
+        for bi, t, p in body.calls():
+            if not p:
+                continue
+            calls.setdefault(base, set()).add(p)
+            if any(p.endswith(m) for m in GROWM) and t["a"] and mir.has_field(body.term_operand(t["a"][0]), "rx_contexts"):
+                direct.add(base)
+    out = set(direct)
+    changed = True
+    while changed:
+        changed = False
+        for f, cs in calls.items():
+            if f not in out and cs & out:
+                out.add(f)
+                changed = True
+    return out
+
+
 def r05_4(ctx):
     r = RuleResult("R05.4", "K3+K1", "per-SSRC receive-context table: who may mutate, and only after authentication")
     n = 0
@@ -186,7 +211,10 @@ def r05_4(ctx):
             return term[0] == "discr" and meaning in ("Continue", "Ok") and mir.has(
                 term[1], lambda x: x[0] == "call" and x[1] in ("srtp::SrtpContext::unprotect", "srtp::SrtpContext::unprotect_rtcp"))
         g = core.guard_edges(body, authed)
-        sites = [(bi, "call:evict_stale_rx") for bi, t, p in core.calls_to(body, suffix("srtp::SrtpSession::evict_stale_rx"))]
+        # functions of the session that (transitively) evict or grow the receive table
+        mutators = _table_mutators(ctx)
+        sites = [(bi, "call:%s" % p.split("::")[-1]) for bi, t, p in body.calls()
+                 if p and p in mutators and p != fn]
         for bi, t, path in body.calls():
             if path and any(path.endswith(m) for m in GROW) and t["a"]:
                 a0 = body.term_operand(t["a"][0])
